@@ -125,6 +125,20 @@ def gen_cases(rng, tier):
             c["tags"] = ["money-converter"]
             c["delegate"] = "C12"
             cases.append(c)
+    # ... and with a converter active throughout: sums and differences across
+    # currencies, whose converted operand has more digits than the currency
+    # holds (converted exactly, added, rounded ONCE - not converted-and-rounded
+    # first), every mode, both converters
+    for name in sorted(C12.CONVS):
+        ops = C12.setup_ops() + [["mc_stack", "enter", name]]
+        for _ in range(40 if tier != "thorough" else 120):
+            o = C12.rand_use(rng)
+            while o[0] != "q_bin" or o[1] not in ("add", "sub"):
+                o = C12.rand_use(rng)
+            o[-1] = rng.choice(["ROUND_FLOOR", "ROUND_CEILING", "ROUND_DOWN", "ROUND_UP",
+                                "ROUND_HALF_EVEN", "ROUND_HALF_UP"])
+            ops.append(o)
+        cases.append({"ops": ops, "fork": True, "tags": ["money-converter"], "delegate": "C12"})
     return cases
 
 
